@@ -175,6 +175,7 @@ Definition dec_obs (l : list sexp) : option obs :=
 Record ccase := {
   c_family : string; c_n : Z; c_len : Z;
   c_toks : list tok; c_lexerrs : Z;
+  c_text : option (list N);     (* the bytes of the document, when the case carries them (<= 400 bytes) *)
   c_doc : option doc;
   c_obs : obs
 }.
@@ -189,7 +190,9 @@ Definition dec_case (l : list sexp) : option ccase :=
                    | None => Some None
                    end in
           match d with
-          | Some d' => Some {| c_family := fam; c_n := n; c_len := len; c_toks := ts; c_lexerrs := le; c_doc := d'; c_obs := o |}
+          | Some d' => Some {| c_family := fam; c_n := n; c_len := len; c_toks := ts; c_lexerrs := le;
+                           c_text := match field1 "text" l with Some (SStr tb) => Some tb | _ => None end;
+                           c_doc := d'; c_obs := o |}
           | None => None
           end
       | _, _ => None
